@@ -67,3 +67,7 @@ func TestVerifC14Regressions(t *testing.T) {
 		},
 	})
 }
+
+func TestVerifC15Decorator(t *testing.T) {
+	vs.Run(t, "C15", func(c *vs.Case) error { return vw.PropC15(c, decoratorFactory, "decorator") })
+}
